@@ -61,6 +61,9 @@ enum Op {
     VecPush(usize),
     Str(u8),
     SliceU64(usize),
+    SliceU8(usize),
+    /// grow by 56 bytes to a larger alignment (64) than the block was allocated with
+    GrowAlign { last: bool },
 }
 
 fn alphabet(profile: Profile) -> Vec<Op> {
@@ -109,6 +112,13 @@ fn alphabet(profile: Profile) -> Vec<Op> {
     v.push(Op::SliceU64(3));
     v.push(Op::SliceU64(8192));
     v.push(Op::SliceU64(1 << 61));
+    v.push(Op::SliceU8(100));
+    v.push(Op::SliceU8(usize::MAX - 10));
+    if profile == Profile::Fast {
+        // under debug assertions a grow to a larger alignment is a debug_assert
+        v.push(Op::GrowAlign { last: true });
+        v.push(Op::GrowAlign { last: false });
+    }
     v
 }
 
@@ -225,10 +235,10 @@ fn enabled(arena: &Arena, sh: &Shadow, op: &Op) -> bool {
     let (base, cap, _, offset) = arena.verif_state();
     let tail = |b: &Block| b.start + b.len == base + offset;
     match op {
-        Op::Alloc { .. } | Op::Mark | Op::Decommit | Op::SliceU64(_) => {
+        Op::Alloc { .. } | Op::Mark | Op::Decommit | Op::SliceU64(_) | Op::SliceU8(_) => {
             !matches!(op, Op::Mark) || sh.marks.len() < 2
         }
-        Op::Grow { last, .. } => {
+        Op::Grow { last, .. } | Op::GrowAlign { last } => {
             if *last { !sh.live.is_empty() } else { sh.live.len() >= 2 }
         }
         Op::ShrinkTail => sh.live.last().is_some_and(|b| tail(b) && b.len >= 2),
@@ -318,6 +328,36 @@ fn apply(arena: &Arena, sh: &mut Shadow, op: &Op) -> Result<(), Bad> {
                     if arena.verif_state().2 > commit0 {
                         sh.crossed_commit = true;
                     }
+                }
+                Err(_) => {
+                    sh.failed_request = true;
+                    if arena.verif_state().3 != offset0 {
+                        return Err(("failed-request-moved-offset".into(), json!({"before": offset0, "after": arena.verif_state().3})));
+                    }
+                }
+            }
+        }
+        Op::GrowAlign { last } => {
+            let idx = if *last { sh.live.len() - 1 } else { 0 };
+            let b = sh.live[idx].clone();
+            let new_align = b.align.max(64);
+            let old = Layout::from_size_align(b.len, b.align).unwrap();
+            let Ok(new) = Layout::from_size_align(b.len + 56, new_align) else { return state_ok(arena, sh) };
+            let p = NonNull::new(b.start as *mut u8).unwrap();
+            let r = unsafe { arena.grow(p, old, new) };
+            sh.did_reset_or_grow = true;
+            match r {
+                Ok(np) => {
+                    let (ptr, len) = (np.cast::<u8>().as_ptr() as usize, np.len());
+                    check_new_block(arena, sh, ptr, len, b.len + 56, new_align, Some(idx))?;
+                    let moved = Block { start: ptr, len, align: new_align, pat: b.pat };
+                    if !intact_prefix(&moved, b.len) {
+                        return Err(("grow-lost-contents".into(), json!({"old_len": b.len, "to_align": new_align, "was_last": last, "moved": ptr != b.start})));
+                    }
+                    sh.pending_reset = None;
+                    let nb = Block { start: ptr, len, align: new_align, pat: sh.pat() };
+                    fill(&nb);
+                    sh.live[idx] = nb;
                 }
                 Err(_) => {
                     sh.failed_request = true;
@@ -452,29 +492,39 @@ fn apply(arena: &Arena, sh: &mut Shadow, op: &Op) -> Result<(), Bad> {
                 sh.crossed_commit = true;
             }
         }
-        Op::SliceU64(n) => {
+        Op::SliceU64(_) | Op::SliceU8(_) => {
+            let (n, elem) = match op {
+                Op::SliceU64(n) => (n, 8usize),
+                Op::SliceU8(n) => (n, 1usize),
+                _ => unreachable!(),
+            };
             let r = catch_unwind(AssertUnwindSafe(|| {
-                let s = arena.alloc_uninit_slice::<u64>(*n);
-                (s.as_ptr() as usize, s.len())
+                if elem == 8 {
+                    let s = arena.alloc_uninit_slice::<u64>(*n);
+                    (s.as_ptr() as usize, s.len())
+                } else {
+                    let s = arena.alloc_uninit_slice::<u8>(*n);
+                    (s.as_ptr() as usize, s.len())
+                }
             }));
             match r {
                 Ok((ptr, count)) => {
-                    let bytes = (count as u128) * 8;
+                    let bytes = (count as u128) * elem as u128;
                     let (_, cap, _, _) = arena.verif_state();
                     if count != *n || bytes > cap as u128 {
                         // the slice claims more memory than the arena owns
                         return Err(("slice-out-of-bounds-memory".into(), json!({"count": format!("{count}"), "bytes": format!("{bytes}"), "capacity": cap})));
                     }
                     let len = bytes as usize;
-                    check_new_block(arena, sh, ptr, len, len, 8, None)?;
+                    check_new_block(arena, sh, ptr, len, len, elem, None)?;
                     if let Some(m) = sh.pending_reset.take() {
-                        let want = (base + m).next_multiple_of(8);
+                        let want = (base + m).next_multiple_of(elem);
                         if ptr != want {
                             return Err(("space-above-mark-not-reused".into(), json!({"mark": m, "got_off": ptr - base})));
                         }
                     }
                     if len > 0 {
-                        let b = Block { start: ptr, len, align: 8, pat: sh.pat() };
+                        let b = Block { start: ptr, len, align: elem, pat: sh.pat() };
                         fill(&b);
                         sh.live.push(b);
                     }
